@@ -90,10 +90,16 @@ class Program:
 		if callee == "@from":
 			return self.by.get("from")
 		if callee == "@closure":
-			for f in self.by.get("closures", []):
-				if str(raw) in f.header:
-					return f
-			return None
+			path, _, parent = str(raw).partition("@@")
+			cands = [f for f in self.by.get("closures", []) if path in f.header]
+			if parent and len(cands) > 1:
+				# macro-generated impls share source locations: the closure of a function is the
+				# first matching closure that FOLLOWS it in the dump
+				pos = {id(f): k for k, f in enumerate(self.fns)}
+				after = [f for f in cands if pos.get(id(f), -1) > int(parent)]
+				if after:
+					return min(after, key=lambda f: pos[id(f)])
+			return cands[0] if cands else None
 		return None
 
 	def encoded(self):
